@@ -162,7 +162,7 @@ SPEC = dict(
         dict(name='le_start', harness='h_le_start', enforce='le_op_start'),
         # FAILS on the unchanged tree (genuine defect, probes/native/let_error_throwing_set_value_double_destroy.cpp): the source operation is destroyed
         # before a receiver set_value that may throw back into it; thorough tier until the repair / a known-findings entry is in
-        dict(name='le_source_set_value', harness='h_le_rcv_set_value', enforce='le_rcv_set_value', tier='thorough'),
+        dict(name='le_source_set_value', harness='h_le_rcv_set_value', enforce='le_rcv_set_value'),
         dict(name='le_source_set_done', harness='h_le_rcv_set_done', enforce='le_rcv_set_done'),
         dict(name='le_source_set_error', harness='h_le_rcv_set_error', enforce='le_rcv_set_error'),
         dict(name='le_final_cleanup', harness='h_le_frcv_cleanup', enforce='le_frcv_cleanup'),
